@@ -1,6 +1,7 @@
 package main
 
 import (
+	"go/constant"
 	"fmt"
 	"go/token"
 	"go/types"
@@ -265,6 +266,14 @@ func (vc *VC) call(fr *Frame, st *State, ins ssa.Instruction, cc *ssa.CallCommon
 		v := vc.freshVal(st, "ef!"+shortName(full), resType)
 		if full == "errors.New" || full == "fmt.Errorf" {
 			vc.assume(st, tNot(tEq(v.T, mk("(mk-iface 0 0)", sortIface))))
+		}
+		if full == "fmt.Sprintf" && len(cc.Args) > 0 {
+			// a constant format that starts with literal text yields a non-empty string
+			if k, ok := cc.Args[0].(*ssa.Const); ok && k.Value != nil && k.Value.Kind() == constant.String {
+				if f := constant.StringVal(k.Value); len(f) > 0 && f[0] != '%' {
+					vc.assume(st, tNot(tEq(v.T, vc.strLit(""))))
+				}
+			}
 		}
 		setRes(v)
 		return
